@@ -164,7 +164,7 @@ class Poly1D():
     return self.f.deriv()(x)
 
   def hess(self, x):
-    return np.diag(self.f.deriv(2)(x))
+    return np.diag(np.atleast_1d(self.f.deriv(2)(x)))
 
 
 class X2D(Function):
@@ -258,7 +258,7 @@ class InformationEntropy():
     return self.c*InformationEntropy.info_entropy(r)
 
   def deriv(self, x):
-    return nd.Jacobian(lambda x: self.c*InformationEntropy.info_entropy(x))(x)
+    return nd.Jacobian(lambda x: self.c*InformationEntropy.info_entropy(x))(x).reshape(-1)
 
   def hess(self, x):
     return nd.Hessian(lambda x: self.c*InformationEntropy.info_entropy(x))(x)
@@ -282,7 +282,7 @@ class TemporalVariance():
     return self.c*TemporalVariance.inertia(r)
 
   def deriv(self, x):
-    return nd.Jacobian(lambda x: self.c*TemporalVariance.inertia(x))(x)
+    return nd.Jacobian(lambda x: self.c*TemporalVariance.inertia(x))(x).reshape(-1)
 
   def hess(self, x):
     return nd.Hessian(lambda x: self.c*TemporalVariance.inertia(x))(x)
@@ -309,7 +309,7 @@ class CobbDouglas():
     return self.c*CobbDouglas.cobb_douglas(r, self.a)
 
   def deriv(self, x):
-    return nd.Jacobian(lambda x: self.c*CobbDouglas.cobb_douglas(x, self.a))(x)
+    return nd.Jacobian(lambda x: self.c*CobbDouglas.cobb_douglas(x, self.a))(x).reshape(-1)
 
   def hess(self, x):
     return nd.Hessian(lambda x: self.c*CobbDouglas.cobb_douglas(x, self.a))(x)
